@@ -15,6 +15,12 @@ mod verif_kani {
         fn fmt(&self, _f: &mut fmt::Formatter<'_>) -> fmt::Result { Ok(()) }
     }
 
+    fn ok<T, E>(r: Result<T, E>) {
+        let good = r.is_ok();
+        std::mem::forget(r);
+        assert!(good);
+    }
+
     fn gen_of(trace_ctx: &TraceHandler, pos: u32) -> u32 {
         match &trace_ctx.as_result_trace()[TracePos::from(pos)] {
             air_interpreter_data::ExecutedState::Ap(ap) => usize::from(ap.res_generations[0]) as u32,
@@ -37,15 +43,83 @@ mod verif_kani {
         let gp: u32 = kani::any();
         let gc: u32 = kani::any();
         kani::assume(gp < 3 && gc < 3);
-        stream.add_value(V(0.into()), Generation::Previous((gp as usize).into())).unwrap();
-        stream.add_value(V(1.into()), Generation::Current((gc as usize).into())).unwrap();
-        stream.add_value(V(2.into()), Generation::New).unwrap();
-        stream.compactify(&mut trace_ctx).unwrap();
+        ok(stream.add_value(V(0.into()), Generation::Previous((gp as usize).into())));
+        ok(stream.add_value(V(1.into()), Generation::Current((gc as usize).into())));
+        ok(stream.add_value(V(2.into()), Generation::New));
+        ok(stream.compactify(&mut trace_ctx));
         let a = gen_of(&trace_ctx, 0);
         let b = gen_of(&trace_ctx, 1);
         let c = gen_of(&trace_ctx, 2);
         assert!(a == 0 && b == 1 && c == 2);
         std::mem::forget(stream);
+        std::mem::forget(trace_ctx);
+    }
+
+    #[kani::proof]
+    #[kani::unwind(5)]
+    #[kani::stub(std::hash::RandomState::new, stub_random_state)]
+    fn c12_compactify_slim() {
+        let mut trace_ctx = TraceHandler::default();
+        trace_ctx.meet_ap_end(ApResult::stub());
+        trace_ctx.meet_ap_end(ApResult::stub());
+        let mut stream: Stream<V> = Stream::new();
+        ok(stream.add_value(V(0.into()), Generation::Current(1usize.into())));
+        ok(stream.add_value(V(1.into()), Generation::New));
+        ok(stream.compactify(&mut trace_ctx));
+        assert!(gen_of(&trace_ctx, 0) == 0 && gen_of(&trace_ctx, 1) == 1);
+        std::mem::forget(stream);
+        std::mem::forget(trace_ctx);
+    }
+
+    // profile A: trace handler only
+    #[kani::proof]
+    #[kani::unwind(5)]
+    #[kani::stub(std::hash::RandomState::new, stub_random_state)]
+    fn prof_a_trace_handler_only() {
+        let mut trace_ctx = TraceHandler::default();
+        trace_ctx.meet_ap_end(ApResult::stub());
+        trace_ctx.meet_ap_end(ApResult::stub());
+        assert!(trace_ctx.update_generation(1.into(), 7usize.into()).is_ok());
+        assert!(gen_of(&trace_ctx, 1) == 7);
+        std::mem::forget(trace_ctx);
+    }
+
+    // profile B: stream only (values matrix ops), no trace handler
+    #[kani::proof]
+    #[kani::unwind(5)]
+    fn prof_b_stream_only() {
+        let mut stream: Stream<V> = Stream::new();
+        ok(stream.add_value(V(0.into()), Generation::Current(1usize.into())));
+        ok(stream.add_value(V(1.into()), Generation::New));
+        stream.previous_values.remove_empty_generations();
+        stream.current_values.remove_empty_generations();
+        stream.new_values.remove_empty_generations();
+        let n: usize = stream.current_values.generations_count().into();
+        assert!(n == 1);
+        let mut it = stream.iter();
+        assert!(usize::from(it.next().unwrap().0) == 0);
+        assert!(usize::from(it.next().unwrap().0) == 1);
+        assert!(it.next().is_none());
+        std::mem::forget(it);
+        std::mem::forget(stream);
+    }
+
+    // profile C: update_generations alone over hand-built slices
+    #[kani::proof]
+    #[kani::unwind(5)]
+    #[kani::stub(std::hash::RandomState::new, stub_random_state)]
+    fn prof_c_update_generations_only() {
+        let mut trace_ctx = TraceHandler::default();
+        trace_ctx.meet_ap_end(ApResult::stub());
+        trace_ctx.meet_ap_end(ApResult::stub());
+        trace_ctx.meet_ap_end(ApResult::stub());
+        let g0 = [V(0.into()), V(2.into())];
+        let g1 = [V(1.into())];
+        let slices: Vec<&[V]> = vec![&g0[..], &g1[..]];
+        let start: u32 = kani::any();
+        kani::assume(start < 1000);
+        ok(Stream::<V>::update_generations(slices.into_iter(), (start as usize).into(), &mut trace_ctx));
+        assert!(gen_of(&trace_ctx, 0) == start && gen_of(&trace_ctx, 2) == start && gen_of(&trace_ctx, 1) == start + 1);
         std::mem::forget(trace_ctx);
     }
 }
